@@ -69,7 +69,6 @@ structure World where
 
 /-- ABI-like data extracted from the tree (instantiated by `Gen`). -/
 structure Cfg where
-  sgn : Bool
   strSize : Nat
   sizeofData : Nat
   sizeofPoly : Nat
@@ -197,7 +196,7 @@ deriving DecidableEq, Repr
 
 /-- `UTF8_DECOMPOSE` with its event. -/
 def decompose (cfg : Cfg) (env : Env) (lib : Lib) (s : List Nat) : List Nat × List Event :=
-  let r := lazyNfkd cfg.sgn cfg.strSize (env.nfkd lib.deps.nfkd) s
+  let r := lazyNfkd cfg.strSize (env.nfkd lib.deps.nfkd) s
   (r.1, if r.2 then [.nfkd lib.deps.nfkd s r.1] else [])
 
 /-- the three wipes at `cleanup:`. -/
@@ -230,7 +229,7 @@ def decode (cfg : Cfg) (env : Env) (lib : Lib) (str : List Nat) (coin : Nat) (w 
   let (tmp, pre) := decompose cfg env lib str
   let (toks, n) := strSplit cfg.numWords tmp
   if n ≠ cfg.numWords then ⟨lib, ⟨.numWords, none, none⟩, pre ++ decodeWipes cfg lib, w⟩ else
-  let det := phraseDecode cfg.sgn cfg.langs toks
+  let det := phraseDecode cfg.langs toks
   if det.status ≠ .ok then ⟨lib, ⟨det.status, none, det.langOut⟩, pre ++ decodeWipes cfg lib, w⟩ else
   decodeFinish cfg lib det.idx coin det.langOut pre w
 
@@ -239,7 +238,7 @@ def decodeExplicit (cfg : Cfg) (env : Env) (lib : Lib) (str : List Nat) (coin : 
   let (tmp, pre) := decompose cfg env lib str
   let (toks, n) := strSplit cfg.numWords tmp
   if n ≠ cfg.numWords then ⟨lib, ⟨.numWords, none, none⟩, pre ++ decodeWipes cfg lib, w⟩ else
-  let r := phraseDecodeExplicit cfg.sgn L toks
+  let r := phraseDecodeExplicit L toks
   if r.1 ≠ .ok then ⟨lib, ⟨r.1, none, none⟩, pre ++ decodeWipes cfg lib, w⟩ else
   decodeFinish cfg lib r.2 coin none pre w
 
